@@ -7,7 +7,7 @@
 (* the operators they use, so a malformed value is a failed clause and     *)
 (* never a TLC evaluation error.                                           *)
 (***************************************************************************)
-EXTENDS FMMetrics, FMEq, FMFormats, FMExports
+EXTENDS FMMetrics, FMEq, FMFormats, FMExports, FMBig
 
 \* A clause is <<name, truth>> or <<name, truth, why>>: `why` names the deviation
 \* (a known finding modelled in the specification) that explains a failure, or "".
@@ -24,7 +24,7 @@ InitCur == [model |-> EmptyModel, memo |-> <<>>, other |-> EmptyModel,
             m0 |-> EmptyModel, m1 |-> EmptyModel, gen |-> 0, wd |-> <<>>, wmemo |-> <<>>, fmt |-> "",
             pj |-> [out |-> "none", anom |-> <<>>, post |-> EmptyModel]]
 
-EditActions == {"EditCard", "EditAddChild", "EditRemoveKid", "EditReplaceKid", "EditMove", "EditImport", "EditAbstract", "EditAttrVal", "EditRemoveCtc",
+EditActions == {"EditCard", "EditAddChild", "EditRemoveKid", "EditReplaceKid", "EditMove", "EditReown", "EditImport", "EditAbstract", "EditAttrVal", "EditAttrName", "EditRemoveAttr", "EditRemoveCtc",
                 "EditCtcOp", "EditRename"}
 BuilderActions == {"NewModel", "AddRelation", "SetAbstract", "SetType", "SetFCard",
                    "AddAttribute", "AddConstraint", "ReplaceConstraint"} \cup EditActions
@@ -64,9 +64,12 @@ BuildExpected(cur, e) ==
     [] e.a = "EditMove"      -> LET j == RelIdx(cur.model, e.args.o, e.args.ri)
                                     k == CHOOSE k \in DOMAIN cur.model.rels[j].kids : cur.model.rels[j].kids[k] = e.args.n
                                 IN  MoveKidF(cur.model, j, k, RelIdx(cur.model, e.args.o2, e.args.ri2))
+    [] e.a = "EditReown"     -> ReOwnF(cur.model, RelIdx(cur.model, e.args.o, e.args.ri), e.args.o2)
     [] e.a = "EditImport"    -> ImportF(cur.model, e.args.ctcs)
     [] e.a = "EditAbstract"  -> ToggleAbstractF(cur.model, e.args.f)
     [] e.a = "EditAttrVal"   -> SetAttrValF(cur.model, e.args.f, e.args.k, e.args.val)
+    [] e.a = "EditAttrName"  -> SetAttrNameF(cur.model, e.args.f, e.args.k, e.args.n)
+    [] e.a = "EditRemoveAttr" -> RemoveAttrF(cur.model, e.args.f, e.args.k)
     [] e.a = "EditRemoveCtc" -> RemoveCtcF(cur.model, e.args.i)
     [] e.a = "EditCtcOp"     -> SetCtcOpF(cur.model, e.args.i, e.args.op)
     [] e.a = "EditRename"    -> RenameF(cur.model, e.args.f, e.args.n)
@@ -79,7 +82,7 @@ EditArgsOK(cur, e) ==
     [] e.a = "EditMove" -> /\ HasRel(m, e.args.o, e.args.ri) /\ HasRel(m, e.args.o2, e.args.ri2)
                            /\ e.args.n \in Kids(m.rels[RelIdx(m, e.args.o, e.args.ri)])
     [] e.a \in {"EditAbstract", "EditRename"} -> e.args.f \in Names(m)
-    [] e.a = "EditAttrVal" -> e.args.f \in Names(m) /\ e.args.k \in DOMAIN FeatOf(m, e.args.f).attrs
+    [] e.a \in {"EditAttrVal", "EditAttrName", "EditRemoveAttr"} -> e.args.f \in Names(m) /\ e.args.k \in DOMAIN FeatOf(m, e.args.f).attrs
     [] e.a \in {"EditRemoveCtc", "EditCtcOp"} -> e.args.i \in DOMAIN m.ctcs
     [] OTHER -> TRUE
 BuildClauses(cur, e) ==
@@ -458,6 +461,12 @@ ExecChainClauses(cur, e) ==
         <<"C16.chain.value", (R.depth_out = "value" /\ R.leaves_out = "value" /\ R.anc_out = "value")
                               => (R.depth = n - 1 /\ R.leaves = 1 /\ R.anc_len = n - 1)>> >>
 
+\* The estimate on a model whose root owns relations over many LEAF children (harness-built from args.groups):
+\* the exact count is a product of sums of binomial coefficients, computed on decimal digit sequences (FMBig)
+ExecWideClauses(cur, e) ==
+  << <<"C13.wide.total", e.ret.out = "value">>,
+     <<"C13.wide.exact", e.ret.out = "value" => e.ret.digits = WideCount(e.args.groups)>> >>
+
 ---------------------------------------------------------------------------
 (* Exports (C10, C11): e.ret.doc is the parsed abstract syntax *)
 ExportClauses(cur, e) ==
@@ -512,6 +521,7 @@ Clauses(cur, e) ==
     [] e.a = "ReadCorpus"     -> ReadCorpusClauses(cur, e)
     [] e.a = "ExecBig"        -> ExecBigClauses(cur, e)
     [] e.a = "ExecChain"      -> ExecChainClauses(cur, e)
+    [] e.a = "ExecWide"       -> ExecWideClauses(cur, e)
     [] e.a = "ReadBack"       -> << <<"C12.utf8.names." \o e.args.fmt,
                                       e.out = "value" => (e.anom = <<>> /\ Names(e.post) = Names(cur.model))>> >>
     [] e.a = "ParseJson"      -> << <<"C05.parsejson.total", InFrag("json", cur.m0) => e.out = "value">> >>
